@@ -4,11 +4,15 @@ package bufimage
 
 import (
 	"context"
+	"errors"
 	"sort"
 
 	"github.com/bufbuild/buf/private/bufpkg/bufparse"
 	"github.com/bufbuild/buf/private/pkg/protoencoding"
+	"github.com/bufbuild/protocompile/ast"
 	"github.com/bufbuild/protocompile/linker"
+	"github.com/bufbuild/protocompile/parser"
+	"github.com/bufbuild/protocompile/reporter"
 	"github.com/google/uuid"
 	"google.golang.org/protobuf/reflect/protoreflect"
 	"google.golang.org/protobuf/types/descriptorpb"
@@ -84,11 +88,20 @@ type vfGraph struct {
 
 // vfNondetGraph: n files, file i may import any file j<i (acyclic by construction; import lists are in a nondet
 // direction so that import order and index order are independent).
-func vfNondetGraph(maxN int, p int) *vfGraph {
+//
+// sym: names are distinct symbolic strings (so name order is independent of import order), else fixed names.
+// side: also vary the direction of the import lists.
+func vfNondetGraph(maxN int, p int, sym bool, side bool) *vfGraph {
 	g := &vfGraph{}
 	g.n = verifNondetChoice(maxN) + 1
 	n := g.n
-	g.names = vfNondetNames(n, p, true)
+	if sym {
+		g.names = vfNondetNames(n, p, true)
+	} else {
+		for i := 0; i < n; i++ {
+			g.names = append(g.names, vfName(i))
+		}
+	}
 	for i := 0; i < n; i++ {
 		for j := 0; j < i; j++ {
 			if verifNondetBool() {
@@ -96,7 +109,7 @@ func vfNondetGraph(maxN int, p int) *vfGraph {
 			}
 		}
 	}
-	reverseImports := verifNondetBool()
+	reverseImports := side && verifNondetBool()
 	for i := 0; i < n; i++ {
 		f := &vfFile{idx: i, path: g.names[i]}
 		for k := 0; k < i; k++ {
@@ -139,7 +152,8 @@ func vfNondetGraph(maxN int, p int) *vfGraph {
 // the parser accessor.
 func VerifLemma_C01A_GetImage() {
 	ctx := context.Background()
-	g := vfNondetGraph(verifParam("N"), verifParam("P"))
+	side := verifParam("SIDE") != 0
+	g := vfNondetGraph(verifParam("N"), verifParam("P"), verifParam("SYM") != 0, side)
 	n := g.n
 	isTarget := [vfMax]bool{}
 	nTargets := 0
@@ -153,7 +167,7 @@ func VerifLemma_C01A_GetImage() {
 	var compiled linker.Files
 	var paths []string
 	rot := 0
-	if nTargets > 1 {
+	if nTargets > 1 && side {
 		rot = verifNondetChoice(nTargets)
 	}
 	var targetIdx []int
@@ -174,9 +188,14 @@ func VerifLemma_C01A_GetImage() {
 	commitID := uuid.UUID{1, 2, 3}
 	hasModule := [vfMax]bool{}
 	hasExternal := [vfMax]bool{}
+	// One file (nondet which) is owned by a named module with a commit, the next one has an external path.
+	mk := 0
+	if side {
+		mk = verifNondetChoice(n)
+	}
 	for i := 0; i < n; i++ {
-		hasModule[i] = verifNondetBool()
-		hasExternal[i] = verifNondetBool()
+		hasModule[i] = i == mk
+		hasExternal[i] = i == (mk+1)%n
 		var fn bufparse.FullName
 		cid := uuid.Nil
 		if hasModule[i] {
@@ -533,5 +552,138 @@ func VerifLemma_C01B_OrderImageFiles() {
 				verifAssert(pos[j] < pos[i], "reorder puts every file after its dependencies")
 			}
 		}
+	}
+}
+
+// ---- C01-A warning maps ----
+
+type vfUnusedImport struct {
+	linker.ErrorUnusedImport
+	imp string
+}
+
+func (e vfUnusedImport) UnusedImport() string { return e.imp }
+
+type vfWarning struct {
+	reporter.ErrorWithPos
+	filename string
+	err      error
+}
+
+func (w vfWarning) GetPosition() ast.SourcePos {
+	return ast.SourcePos{Filename: w.filename, Line: 1, Col: 1}
+}
+func (w vfWarning) Unwrap() error { return w.err }
+
+// VerifLemma_C01A_WarningMaps: a sequence of 0..W compiler warnings, each "no syntax" (parser.ErrNoSyntax),
+// "unused import" (linker.ErrorUnusedImport) or something else, positioned in one of F files, unused imports
+// naming one of F files: maybeAddSyntaxUnspecified/maybeAddUnusedImport build exactly the set of files with a
+// no-syntax warning and, per file, exactly the set of imports reported unused (no entry for a file without one).
+func VerifLemma_C01A_WarningMaps() {
+	w := verifNondetChoice(verifParam("W") + 1)
+	nFiles := verifParam("F")
+	wantNoSyntax := [vfMax]bool{}
+	wantUnused := [vfMax][vfMax]bool{}
+	otherErr := errors.New("some other warning")
+	syntaxUnspecifiedFilenames := make(map[string]struct{})
+	filenameToUnusedDependencyFilenames := make(map[string]map[string]struct{})
+	for k := 0; k < w; k++ {
+		file := verifNondetChoice(nFiles)
+		var warning vfWarning
+		switch verifNondetChoice(3) {
+		case 0:
+			warning = vfWarning{filename: vfName(file), err: parser.ErrNoSyntax}
+			wantNoSyntax[file] = true
+		case 1:
+			imp := verifNondetChoice(nFiles)
+			warning = vfWarning{filename: vfName(file), err: vfUnusedImport{imp: vfName(imp)}}
+			wantUnused[file][imp] = true
+		case 2:
+			warning = vfWarning{filename: vfName(file), err: otherErr}
+		}
+		maybeAddSyntaxUnspecified(syntaxUnspecifiedFilenames, warning)
+		maybeAddUnusedImport(filenameToUnusedDependencyFilenames, warning)
+	}
+	verifCover("warnings processed")
+	nNoSyntax := 0
+	nUnusedFiles := 0
+	for i := 0; i < nFiles; i++ {
+		_, got := syntaxUnspecifiedFilenames[vfName(i)]
+		verifAssert(got == wantNoSyntax[i], "syntax-unspecified set is exactly the files with a no-syntax warning")
+		if wantNoSyntax[i] {
+			nNoSyntax++
+		}
+		any := false
+		count := 0
+		for j := 0; j < nFiles; j++ {
+			_, got := filenameToUnusedDependencyFilenames[vfName(i)][vfName(j)]
+			verifAssert(got == wantUnused[i][j], "unused imports of a file are exactly those reported")
+			if wantUnused[i][j] {
+				any = true
+				count++
+			}
+		}
+		unusedOfFile, present := filenameToUnusedDependencyFilenames[vfName(i)]
+		verifAssert(present == any, "a file has an unused-import entry iff one was reported")
+		verifAssert(len(unusedOfFile) == count, "no other unused imports")
+		if any {
+			nUnusedFiles++
+		}
+	}
+	verifAssert(len(syntaxUnspecifiedFilenames) == nNoSyntax, "no other syntax-unspecified files")
+	verifAssert(len(filenameToUnusedDependencyFilenames) == nUnusedFiles, "no other unused-import entries")
+}
+
+// VerifLemma_C01A_CheckAndSortFiles: checkAndSortFiles over 0..K compiler results with symbolic names (0..L arbitrary
+// bytes, equal and empty names allowed) and 0..K requested paths (symbolic, 0..L bytes): error iff the counts differ, a name is empty, two results share a name, or a requested
+// path has no result; otherwise the output is the results in requested-path order.
+func VerifLemma_C01A_CheckAndSortFiles() {
+	maxK := verifParam("K")
+	maxL := verifParam("L")
+	nFiles := verifNondetChoice(maxK + 1)
+	nPaths := verifNondetChoice(maxK + 1)
+	var files linker.Files
+	names := make([]string, nFiles)
+	for i := 0; i < nFiles; i++ {
+		names[i] = verifNondetString(maxL)
+		files = append(files, &vfFile{idx: i, path: names[i]})
+	}
+	paths := make([]string, nPaths)
+	for k := 0; k < nPaths; k++ {
+		paths[k] = verifNondetString(maxL)
+	}
+	verifCover("inputs built")
+	sorted, err := checkAndSortFiles(files, paths)
+	bad := nFiles != nPaths
+	for i := 0; i < nFiles; i++ {
+		if len(names[i]) == 0 {
+			bad = true
+		}
+		for j := 0; j < i; j++ {
+			if names[i] == names[j] {
+				bad = true
+			}
+		}
+	}
+	for k := 0; k < nPaths; k++ {
+		found := false
+		for i := 0; i < nFiles; i++ {
+			if names[i] == paths[k] {
+				found = true
+			}
+		}
+		if !found {
+			bad = true
+		}
+	}
+	verifAssert((err != nil) == bad, "checkAndSortFiles fails iff counts differ, empty or duplicate name, or path without result")
+	if err != nil || bad {
+		verifCover("rejected")
+		return
+	}
+	verifCover("accepted")
+	verifAssert(len(sorted) == nPaths, "one result per requested path")
+	for k := 0; k < len(sorted) && k < nPaths; k++ {
+		verifAssert(sorted[k].Path() == paths[k], "results are in requested-path order")
 	}
 }
